@@ -750,6 +750,8 @@ where
                 state.next_free.set(id);
 
                 let delta = state.node_count_delta.get() - 1;
+                // Count this node in both cases below
+                state.node_count_delta.set(delta);
                 if delta > -(CHUNK_SIZE as i32) {
                     state.node_count_delta.set(delta);
                 } else {
